@@ -211,12 +211,12 @@ Definition styled_line_pixels (l : line) (st : style) : option (list (point * Z)
 
 (* mod.rs:109-170  Line::extents *)
 Fixpoint last_alternating (ps : list (bstate * ltype)) (right_turn : bool)
-                          (left right : point * ltype) : (point * ltype) * (point * ltype) :=
+                          (el er : point * ltype) : (point * ltype) * (point * ltype) :=
   match ps with
-  | [] => (left, right)
+  | [] => (el, er)
   | (b, t) :: rest =>
-      if right_turn then last_alternating rest false left (b_point b, t)
-      else last_alternating rest true (b_point b, t) right
+      if right_turn then last_alternating rest false el (b_point b, t)
+      else last_alternating rest true (b_point b, t) er
   end.
 
 Definition extents (l : line) (thickness : Z) (so : stroke_offset) : option (line * line) :=
@@ -226,17 +226,18 @@ Definition extents (l : line) (thickness : Z) (so : stroke_offset) : option (lin
   | Some ps =>
       let reduce := padd (pos_step_major par) (pos_step_minor par) in
       let init := (l_start l, LNormal) in
-      let '(left, right) :=
+      let lastp := match last_opt ps with Some (b, t) => (b_point b, t) | None => init end in
+      let '(el, er) :=
         match so with
         | SONone => last_alternating ps true init init
-        | SOLeft => (match last_opt ps with Some (b, t) => (b_point b, t) | None => init end, init)
-        | SORight => (init, match last_opt ps with Some (b, t) => (b_point b, t) | None => init end)
+        | SOLeft => (lastp, init)
+        | SORight => (init, lastp)
         end in
       let delta := psub (l_end l) (l_start l) in
       let mk (e : point * ltype) : line :=
         L (fst e) (psub (padd (fst e) delta)
                         (match snd e with LNormal => P 0 0 | LExtra => reduce end)) in
-      Some (mk left, mk right)
+      Some (mk el, mk er)
   end.
 
 (* styled.rs:72-88  styled_bounding_box *)
